@@ -26,3 +26,72 @@ Definition run_ref_case (mods : list (module * nat * list (maybe value))) (c : n
       end
   | None => []
   end.
+
+(* ---------- the widened reference (View/RefNest.v): bits blocks, nested structures, dynamic sizes ---------- *)
+Require Import EmbossV.View.RefNest.
+
+(* a nesting depth that suffices for every structure of the module *)
+Definition nest_depth (m : module) : nat := S (length m).
+
+Definition in_nested_class (m : module) (d : sdef) : bool :=
+  (unit_bits d =? 8) && wf_ref_n m (nest_depth m) d.
+
+(* features of a structure, hereditarily: a bits-typed field, a nested byte structure, a nested structure
+   with arguments, a structure-typed field whose size is not a constant *)
+Definition or4 (a b : bool * bool * bool * bool) : bool * bool * bool * bool :=
+  match a, b with (a1, a2, a3, a4), (b1, b2, b3, b4) => (a1 || b1, a2 || b2, a3 || b3, a4 || b4) end.
+Fixpoint features (m : module) (n : nat) (d : sdef) {struct n} : bool * bool * bool * bool :=
+  match n with
+  | O => (false, false, false, false)
+  | S n' =>
+      fold_left (fun acc f =>
+                   match fbody_of f with
+                   | Phys _ size (FStruct tid args adapt) _ =>
+                       let own := (match adapt with Some _ => true | None => false end,
+                                   match adapt with Some _ => false | None => true end,
+                                   match args with [] => false | _ :: _ => true end,
+                                   match size with XK _ => false | _ => true end) in
+                       or4 (or4 acc own)
+                           (match nth_error m tid with Some d' => features m n' d' | None => (false, false, false, false) end)
+                   | _ => acc
+                   end) (fields d) (false, false, false, false)
+  end.
+
+(* [flat class; nested class; bits; nested; nested with arguments; dynamic size] *)
+Definition ref_in_class_n (mods : list (module * nat * list (maybe value))) (k : nat) : list Z :=
+  match nth_error mods k with
+  | Some (m, tid, ps) =>
+      match nth_error m tid with
+      | Some d =>
+          match features m (nest_depth m) d with
+          | (f1, f2, f3, f4) =>
+              [obs_bool (wf_ref d); obs_bool (in_nested_class m d); obs_bool f1; obs_bool f2; obs_bool f3; obs_bool f4]
+          end
+      | None => []
+      end
+  | None => []
+  end.
+
+Definition run_nref_case (mods : list (module * nat * list (maybe value))) (c : nat * list Z) : list Z :=
+  match nth_error mods (fst c) with
+  | Some (m, tid, ps) =>
+      match nth_error m tid with
+      | Some d => if in_nested_class m d then ref_observe_n m tid ps (snd c) (nest_depth m) else [-555]
+      | None => []
+      end
+  | None => []
+  end.
+
+Definition ref_flag (mods : list (module * nat * list (maybe value))) (c : nat * nat) : list Z :=
+  match nth_error (ref_in_class_n mods (fst c)) (snd c) with Some z => [z] | None => [] end.
+
+(* what the reference says about field i of the top structure: [present; can be read; size / element count or -1] *)
+Definition run_nref_field_probe (mods : list (module * nat * list (maybe value))) (c : nat * (nat * list Z)) : list Z :=
+  match nth_error mods (fst c) with
+  | Some (m, tid, ps) =>
+      let bytes := snd (snd c) in
+      let t := ref_struct m bytes (nest_depth m) tid (Some ps) (whole bytes) in
+      let r := nget (n_members t) (fst (snd c)) in
+      [obs_mbool (n_present r); obs_bool (n_ok r); match n_size r with Some z => z | None => -1 end]
+  | None => []
+  end.
